@@ -15,6 +15,7 @@ type vSubScript struct {
 	id     string
 	query  string
 	events []string // entity id of each event ("" = an error payload instead of an event)
+	vars   map[string]interface{}
 }
 
 func vUpstreamStartQuery(up *vConn) string {
@@ -42,11 +43,13 @@ func VerifEvents() {
 	subs := make([]vSubScript, nsubs)
 	for i := range subs {
 		subs[i].id = "s" + verifItoa(i)
-		subs[i].query = `subscription { humanChanged { name phone } }`
+		// a client variable that only the other service's field uses: it is read when an event is stitched
+		subs[i].query = `subscription($c: Int) { humanChanged { name phone(cc: $c) } }`
+		subs[i].vars = map[string]interface{}{"c": 10 + i}
 		if verifParam("stitch", 1) == 0 {
-			subs[i].query = `subscription { humanChanged { name } }`
+			subs[i].query, subs[i].vars = `subscription { humanChanged { name } }`, nil
 		} else if verifChoice("query"+verifItoa(i), 2) == 1 {
-			subs[i].query = `subscription { humanChanged { phone } }`
+			subs[i].query, subs[i].vars = `subscription { humanChanged { phone } }`, nil
 		}
 		n := verifChoice("events"+verifItoa(i), verifParam("maxevents", 2)+1)
 		for e := 0; e < n; e++ {
@@ -109,7 +112,7 @@ func VerifEvents() {
 	go func() {
 		client.vSend(vClientMsg("connection_init", "", ""))
 		for _, s := range subs {
-			client.vSend(vClientMsg("start", s.id, s.query))
+			client.vSend(vClientMsgVars("start", s.id, s.query, s.vars))
 		}
 		// let every upstream finish its script, then leave
 		for range subs {
@@ -175,7 +178,7 @@ func VerifEvents() {
 			w := vSubWorld()
 			w.roots["Subscription.humanChanged"] = vRef{"Human", ev}
 			doc, _ := gqlparser.LoadQuery(f.gw.schema, s.query)
-			exp := vEval(f.gw.schema, w, doc.Operations[0].SelectionSet, "Subscription", nil, nil)
+			exp := vEval(f.gw.schema, w, doc.Operations[0].SelectionSet, "Subscription", nil, vVarsFor(doc.Operations[0], s.vars))
 			b, _ := json.Marshal(exp)
 			var expN map[string]interface{}
 			json.Unmarshal(b, &expN)
